@@ -167,6 +167,11 @@ def race_work(P, name):
         return None
 
     explore(run, bound=3, on_path=on_path, deadline_s=300, stats=P.stats)
+    if not found:
+        # witnesses: the kernel's real Python body, run for two single iterations with access-recording arrays, must
+        # agree that no element is shared (two pairs of iterations, small sizes)
+        for ia, ib in ((0, 1), (1, 3)):
+            P.witness("c19", dict(kernel=name, sizes={n: 6 for n in sp["sizes"]}, it_a=ia, it_b=ib), f"race-witness-{name}-{ia}-{ib}", name)
     # shared scalar state
     sh, nloops = shared_scalars(cap)
     P.stats.queries += 1
